@@ -54,13 +54,77 @@ def nu_def(S, length):
 def nu_mono(length):
     i, a = z3.Ints("i!nm a!nm")
     return And(z3.ForAll([i], Implies(And(i >= 0, i <= length), And(NU(i) >= 0, NU(i) <= i))),
-               z3.ForAll([a, i], Implies(And(0 <= a, a <= i, i <= length), NU(a) <= NU(i))))
+               z3.ForAll([a, i], Implies(And(0 <= a, a <= i, i <= length), And(NU(a) <= NU(i), NU(i) - NU(a) <= i - a))))
 
 
 def placed(S, j):
     """the punctuation character at j is well placed with respect to its predecessor"""
     c, p = z3.Select(S, j), z3.Select(S, j - 1)
     return Implies(punct(c), And(j > 0, Not(punct(p)), Not(sign(p))))
+
+
+def _strip(x):
+    while isinstance(x, dict) and x.get("kind") in ("ImplicitCastExpr", "ParenExpr", "CStyleCastExpr") and x.get("inner"):
+        x = x["inner"][0]
+    return x
+
+
+def _copy_roles(func):
+    """the loop's variables by what they DO (renamed locals do not matter): `i` is the non-parameter variable of the loop
+    condition; `last_was_punctuation` / `parse_error_found` are the int flags that start as 1 / 0 before the loop"""
+    params = {c.get("name") for c in func.get("inner", []) if c.get("kind") == "ParmVarDecl"}
+    out = {}
+    inits = {}          # variable -> first constant it is initialised / assigned with, in source order, before the loop
+
+    def const_of(x):
+        x = _strip(x)
+        return int(x["value"]) if x.get("kind") == "IntegerLiteral" else None
+
+    def cond_var(x):
+        x = _strip(x)
+        if x.get("kind") == "DeclRefExpr" and x["referencedDecl"].get("name") not in params:
+            return x["referencedDecl"].get("name")
+        for c in x.get("inner", []) or []:
+            v = cond_var(c)
+            if v:
+                return v
+        return None
+
+    def walk(x):
+        if not isinstance(x, dict) or "i" in out:
+            return
+        k = x.get("kind")
+        if k in ("ForStmt", "WhileStmt"):
+            kids = x.get("inner", [])
+            cond = kids[2] if k == "ForStmt" and len(kids) >= 5 else kids[0]
+            if k == "ForStmt" and kids and kids[0]:
+                walk_init(kids[0])
+            v = cond_var(cond) if cond else None
+            if v:
+                out["i"] = v
+            return
+        if k == "VarDecl" and x.get("name") not in params and x.get("inner"):
+            c = const_of(x["inner"][-1])
+            if c is not None:
+                inits.setdefault(x["name"], c)
+        walk_init(x)
+        for c in x.get("inner", []) or []:
+            walk(c)
+
+    def walk_init(x):
+        if isinstance(x, dict) and x.get("kind") == "BinaryOperator" and x.get("opcode") == "=":
+            l, c = _strip(x["inner"][0]), const_of(x["inner"][1])
+            if l.get("kind") == "DeclRefExpr" and c is not None:
+                inits.setdefault(l["referencedDecl"].get("name"), c)
+    walk(func)
+    for name, c in inits.items():
+        if name == out.get("i"):
+            continue
+        if c == 1:
+            out.setdefault("last_was_punctuation", name)
+        elif c == 0:
+            out.setdefault("parse_error_found", name)
+    return out
 
 
 class _CopyLoop:
@@ -106,6 +170,9 @@ CASES = ["1e-_5", "1e+_5", "1_0", "1__0", "_1", "1_", "1e_5", "1e5_", "1_e5", "1
          "1e-_5 ", "nan_", "in_f", "1e-", "1e+", "+_1", "-_1", "+1_0", "0x10", "1_000.000_1e1_0", " 1e-_5", "1 ", "infinity", "-Infinity", "INF",
          "nan", "+nan", "1.e5", ".5", ".", "e5", "1e", "--1", "+-1", "1 2", "1_-5", "1e_-5", "-.5_0", "1_0e-1_0", "1\x1c", "\x1c1", "1\x0b", "\x851", "1\xa0",
          "1_0" * 20, "1" * 45 + "_0", "-1_0e+0_5", "1e-0_5", "1_e-5", "1e-_", "_", "", " ", "1_0.", "1_0.e1", "+.5", "-_.5", "1e+5_", "1e++5", "1e-+5"]
+# the str variant is only taken for non-ASCII strings: the same texts behind a no-break space, and lengths around the 40-byte stack buffer
+CASES += ["\xa0" + c for c in list(CASES)] + [c + " " for c in CASES[:30]] + ["\xa0" + "1" * n for n in (38, 39, 40, 41, 80)] + \
+         ["\xa0" + "1_0" * n for n in (12, 13, 14, 30)] + ["١٢", "\xa0١", "1\xa02", "\xa01\x1c", "\xa0\x1c1", "\x1c\xa01"]
 
 
 def _native(model, ob=None):
@@ -114,9 +181,12 @@ def _native(model, ob=None):
     ctext, cfile = cextract.compile_pyx(PYX, name="dvfloatparserep")
     d = os.path.dirname(cfile)
     so = os.path.join(d, "dvfloatparserep.so")
-    p = subprocess.run(["clang", "-shared", "-fPIC", "-O0", "-w", "-I" + cextract.PY_INCLUDE, cfile, "-o", so], capture_output=True, text=True)
+    p = subprocess.run(["clang", "-shared", "-fPIC", "-O0", "-g", "-w", "-fsanitize=address", "-I" + cextract.PY_INCLUDE, cfile, "-o", so],
+                       capture_output=True, text=True)
     if p.returncode != 0:
         return {"confirmed": False, "note": "build failed " + p.stderr[-300:]}
+    env = dict(os.environ, ASAN_OPTIONS="detect_leaks=0",
+               LD_PRELOAD=subprocess.run(["clang", "-print-file-name=libclang_rt.asan-x86_64.so"], capture_output=True, text=True).stdout.strip())
     code = r'''
 import sys; sys.path.insert(0, %r); import dvfloatparserep as m
 def run(f, a):
@@ -132,12 +202,71 @@ for c in %r:
         if run(f, a) != run(float, a): bad.append((name, c, run(f, a), run(float, a)))
 print(bad[:4])
 ''' % (d, CASES)
-    r = subprocess.run(["/venv/bin/python", "-c", code], capture_output=True, text=True, timeout=300)
+    r = subprocess.run(["/venv/bin/python", "-c", code], capture_output=True, text=True, timeout=600, env=env)
     out = r.stdout.strip()
+    if "AddressSanitizer" in r.stderr:
+        lines = [l for l in r.stderr.splitlines() if "AddressSanitizer" in l or l.lstrip().startswith(("WRITE", "READ", "#0", "#1"))]
+        out = "ASan: " + " | ".join(lines[:5])
     return {"inputs": "%d numeric / malformed texts (underscores next to signs, punctuation, ends; whitespace incl. 0x1c..0x1f, 0x85, 0xa0) as str, bytes, "
                       "bytearray, through the typed and the untyped route" % len(CASES), "actual": out or r.stderr[-400:], "confirmed": out != "[]",
             "how": "catalogue module built from the working tree; float(s) compared with CPython's float(s) (value repr / exception type)",
             "obligation": getattr(ob, "name", None)}
+
+
+class _UniSpace:
+    """CPython's own Unicode whitespace test for non-ASCII code points (an uninterpreted predicate of the code point)"""
+
+    def apply(self, ex, st, args, n):
+        from dv.cfe import CV, node_type
+        r = z3.Function("PyUnicode_IsWhitespace", z3.IntSort(), z3.IntSort())(args[0].t)
+        st.path.append(Or(r == 0, r == 1))
+        ex.assumptions.add("Py_UNICODE_ISSPACE(ch) for ch > 127 is CPython's own table (_PyUnicode_IsWhitespace): an uninterpreted 0/1 function of the code point")
+        return CV(node_type(n), r)
+
+
+class _UCopyLoop:
+    """the str variant: for (i = start; i < end; i++) over PyUnicode_READ(kind, data, i), leaving through `goto parse_failure`"""
+    modifies_objs = ("buffer",)
+
+    def holds(self, ex, st):
+        D, B = st.mem["data"], st.mem["buffer"]
+        i, start, end = ex.local(st, "i").t, ex.local(st, "start").t, ex.local(st, "end").t
+        lwp = ex.local(st, "last_was_punctuation").t
+        buf = ex.local(st, "buffer")
+        j = z3.Int("j!ucp")
+        prev = z3.Select(D, i - 1)
+        return [("index and output cursor", And(i >= start, i <= end, buf.off == NU(i) - NU(start))),
+                ("flag", And(Or(lwp == 0, lwp == 1), (lwp == 1) == Or(i == start, punct(prev), sign(prev)))),
+                ("every character seen is ASCII and every punctuation character seen is well placed",
+                 z3.ForAll([j], Implies(And(j >= start, j < i), And(z3.Select(D, j) <= 127, _uplaced(D, j, start))))),
+                ("the characters seen, minus underscores, are in the buffer",
+                 z3.ForAll([j], Implies(And(j >= start, j < i, z3.Select(D, j) != 95), z3.Select(B, NU(j) - NU(start)) == z3.Select(D, j))))]
+
+    def decreases(self, ex, st):
+        return ex.local(st, "end").t - ex.local(st, "i").t
+
+
+def _uplaced(D, j, start):
+    c, p = z3.Select(D, j), z3.Select(D, j - 1)
+    return Implies(punct(c), And(j > start, Not(punct(p)), Not(sign(p))))
+
+
+def _ucopy_post(e):
+    r = e.result
+    if e.result_null:
+        return True
+    if not hasattr(r, "off") or r.obj != "buffer":
+        return False
+    D, B = e.mem0["data"], e.mem["buffer"]
+    j = z3.Int("j!upost")
+    under = z3.Select(D, j) == 95
+    n = NU(e.end) - NU(e.start)
+    return And(r.off == n, z3.Select(B, n) == 0,
+               z3.ForAll([j], Implies(And(j >= e.start, j < e.end), z3.Select(D, j) <= 127)),
+               z3.ForAll([j], Implies(And(j >= e.start, j < e.end, Not(under)), z3.Select(B, NU(j) - NU(e.start)) == z3.Select(D, j))),
+               z3.ForAll([j], Implies(And(j >= e.start, j < e.end, under),
+                                      And(j > e.start, j < e.end - 1, Not(punct(z3.Select(D, j - 1))), Not(sign(z3.Select(D, j - 1))),
+                                          Not(punct(z3.Select(D, j + 1)))))))
 
 
 def _lemmas():
@@ -149,7 +278,7 @@ def _lemmas():
 
     def ih(n):
         return And(z3.ForAll([i], Implies(And(i >= 0, i <= n), And(NU(i) >= 0, NU(i) <= i))),
-                   z3.ForAll([a, i], Implies(And(0 <= a, a <= i, i <= n), NU(a) <= NU(i))))
+                   z3.ForAll([a, i], Implies(And(0 <= a, a <= i, i <= n), And(NU(a) <= NU(i), NU(i) - NU(a) <= i - a))))
     yield "NU.base", [NU(0) == 0], ih(z3.IntVal(0))
     yield "NU.step", [n >= 0, step, ih(n)], ih(n + 1)
 
@@ -169,7 +298,36 @@ def units(tier):
                         ("NU(i) = number of non-underscore characters among the first i (definition)", lambda e: nu_def(e.mem0["start"], e.length)),
                         ("NU is non-decreasing (LemmaUnit Optimize.AsDouble_Copy.lemmas; induction schema applied by hand)", lambda e: nu_mono(e.length))],
               ensures=[("NULL, or the underscores are legal (PEP 515, none after a sign) and the buffer holds the text without them + NUL", _copy_post)],
-              options={"merge": False, "invariants": {0: _CopyLoop()}}, subject={"file": "Cython/Utility/Optimize.c", "template": "pybytes_as_double"})
+              options={"merge": False, "invariants": {0: _CopyLoop()}, "name_roles": _copy_roles}, subject={"file": "Cython/Utility/Optimize.c", "template": "pybytes_as_double"})
+    u.replay = _native
+    u.concrete_search = lambda ob, regions=(): _native({}, ob)
+    us.append(u)
+    # ---- the str variant (non-ASCII strings): one unit per PyUnicode kind (the quick tier takes kind 1)
+    kinds = [(1, "unsigned char")] if tier == "quick" else [(1, "unsigned char"), (2, "unsigned short"), (4, "unsigned int")]
+    for kind, ctype in kinds:
+        u = CUnit("Optimize.UnicodeAsDouble_Copy[kind=%d]" % kind, props, "__Pyx__PyUnicode_AsDouble_Copy", _tu,
+                  filt=["__Pyx__PyUnicode_AsDouble_Copy", "PyUnicode_READ"], defines=("NDEBUG",),
+                  arrays={"data": (ctype, lambda e: z3.Int("end") + 1), "buffer": ("char", lambda e: z3.Int("end") - z3.Int("start") + 1)},
+                  requires=[("0 <= start <= end, far below PY_SSIZE_T_MAX (the stripped text; `end` is exclusive)",
+                             lambda e: And(e.start >= 0, e.start <= e.end, e.end <= 2 ** 40)),
+                            # (the buffer extent above is what the caller provides: number[40] for a length < 40, else malloc(length + 1))
+                            ("NU(i) = number of non-underscore characters among the first i (definition)", lambda e: nu_def(e.mem0["data"], e.end)),
+                            ("NU is non-decreasing (LemmaUnit Optimize.AsDouble_Copy.lemmas)", lambda e: nu_mono(e.end))],
+                  ensures=[("NULL, or the text is ASCII, its underscores are legal (PEP 515, none after a sign) and the buffer holds it without them + NUL",
+                            _ucopy_post)],
+                  options={"merge": False, "invariants": {0: _UCopyLoop()}, "inline": ("PyUnicode_READ",), "name_roles": _copy_roles,
+                           "enum_values": {"PyUnicode_1BYTE_KIND": 1, "PyUnicode_2BYTE_KIND": 2, "PyUnicode_4BYTE_KIND": 4}},
+                  subject={"file": "Cython/Utility/Optimize.c", "template": "pyunicode_as_double", "instantiation": "kind=%d" % kind})
+        u.consts = {"kind": kind}
+        u.replay = _native
+        u.concrete_search = lambda ob, regions=(): _native({}, ob)
+        us.append(u)
+    u = CUnit("Optimize.UnicodeAsDouble_IsSpace", props, "__Pyx__PyUnicode_AsDouble_IsSpace", _tu, filt=["__Pyx__PyUnicode_AsDouble_IsSpace"],
+              requires=[("a code point", lambda e: And(e.ch >= 0, e.ch <= 0x10FFFF))],
+              ensures=[("ASCII: exactly 0x20 and 0x09..0x0d (what CPython's bytes parser strips; NOT 0x1c..0x1f); above: Py_UNICODE_ISSPACE",
+                        lambda e: Implies(e.ch <= 127, (e.result != 0) == Or(e.ch == 32, And(e.ch >= 9, e.ch <= 13))))],
+              callees={"Py_UNICODE_ISSPACE": _UniSpace()},
+              options={"merge": False}, subject={"file": "Cython/Utility/Optimize.c", "template": "pyunicode_as_double"})
     u.replay = _native
     u.concrete_search = lambda ob, regions=(): _native({}, ob)
     us.append(u)
